@@ -1,12 +1,14 @@
 import IgrisModel.C10.Model
+import IgrisModel.C10.ModelPtr
 open Igris.Proto Igris.C10
 
 inductive St where
   | idle
   | pool (p : Pool) (m : Links) (head : Nat)   -- list model and the `next`-pointer model side by side
   | ipool (p : IPool)
-  | sop (p : SOP)
-  | heap (cfg : Cfg) (h : Heap) (slots : List (Nat × Nat))   -- slot ↦ payload offset
+  | sop (st : Nat) (p : SOPx) (zt : List (Nat × Nat × Nat))  -- sizeof(storage_type), pool, zone table
+  | mpool (m : Links) (s : MState) (zt : List (Nat × Nat × Nat))  -- several zones: (base, cells, elemsz)
+  | heap (cfg : Cfg) (h : Heap) (ph : PHeap) (slots : List (Nat × Nat))   -- slot ↦ payload offset; list model and `nx`-pointer model side by side
 
 def optS : Option Nat → String
   | none => "null"
@@ -33,6 +35,28 @@ def availBoth (p : Pool) (m : Links) (head : Nat) : String :=
   let a := slistSize m head (p.free.length + 2)
   if a = p.avail then toString a else s!"{a} MISMATCH {p.avail}"
 
+/-- base address the driver gives to the next zone (zones are laid out one
+behind the other with a gap; address 0..7 is the list head of `mpool` cases) -/
+def nextBase (zt : List (Nat × Nat × Nat)) : Nat :=
+  zt.foldl (fun acc (b, n, e) => max acc (b + n * e + 24)) 16
+
+/-- a cell address as `zone:offset` (what the harness prints) -/
+def cellStr (zt : List (Nat × Nat × Nat)) (a : Nat) : String :=
+  let rec go (k : Nat) : List (Nat × Nat × Nat) → String
+    | [] => s!"?{a}"
+    | (b, n, e) :: r => if b ≤ a ∧ a < b + n * e then s!"{k}:{a - b}" else go (k + 1) r
+  go 0 zt
+
+def optCell (zt : List (Nat × Nat × Nat)) : Option Nat → String
+  | none => "null"
+  | some a => cellStr zt a
+
+/-- address of cell `off` of zone `k` -/
+def cellAddr? (zt : List (Nat × Nat × Nat)) (k off : Nat) : Option Nat :=
+  match zt[k]? with
+  | some (b, n, e) => if off < n * e then some (b + off) else none
+  | none => none
+
 def heapLine (ret : String) (h : Heap) (slots : List (Nat × Nat)) : String :=
   let fl := String.join (h.flp.map fun c => s!"({c.1},{c.2})")
   let sorted := slots.foldl (fun acc x => insertSorted x acc) []
@@ -40,8 +64,16 @@ def heapLine (ret : String) (h : Heap) (slots : List (Nat × Nat)) : String :=
     s!"{k}:{p}:{match lookup (p - 8) h.live with | some s => toString s | none => "?"} ")
   s!"ret={ret} brk={h.brk} fl={fl} live={lv.trimAscii}"
 
+/-- the `nx`-pointer model must agree with the list model: same break, the free list read through
+`__flp` / `nx` / `sz` words equals the list, every live header word equals the recorded size, same
+returned pointer -/
+def ptrAgree (h : Heap) (ph : PHeap) (ret retP : Option Nat) : String :=
+  if ph.brk = h.brk ∧ walkFl ph (ph.brk + 1) = h.flp ∧ h.live.all (fun c => ph.szf c.1 == c.2) ∧ ret = retP
+  then "" else " MISMATCH-PTR"
+
 def stepLine (st : St) (line : String) : St × String :=
   let bad := (st, "bad-op")
+  let st' := st
   match words line with
   | ["consts"] => (st, "W=64 szt=8 fl=16 sl=8")
   | ["reset", "pool", e, n] =>
@@ -58,16 +90,28 @@ def stepLine (st : St) (line : String) : St × String :=
       let p := IPool.init (n * e) e
       (.ipool p, s!"{p.cells} {p.room} {p.avail}")
     | _, _ => bad
+  | ["reset", "ipool0"] =>
+    -- `igris::pool p;` (default constructed, no zone)
+    (.ipool IPool.default, s!"{IPool.default.room} {IPool.default.avail}")
   | ["reset", "sop", s, a, n] =>
     match s.toNat?, a.toNat?, n.toNat? with
     | some s, some a, some n =>
-      let p := SOP.init s a n
-      (.sop p, s!"{storageSize s a} {p.avail}")
+      let p := SOPx.init s a n
+      let st := storageSize s a
+      (.sop st p [(0, n, st)], s!"{st} {p.sop.avail}")
     | _, _, _ => bad
+  | ["reset", "poolx", e, size] =>
+    -- igris::pool(zone, size, elsize): asserts `elsize >= sizeof(struct slist_head)` (init) and `size % elemsz == 0` (pool_engage)
+    match e.toNat?, size.toNat? with
+    | some e, some size =>
+      (.idle, if engageRefused size e then "assert" else s!"engaged {(Pool.init.engage size e).avail}")
+    | _, _ => bad
+  | ["reset", "mpool"] =>
+    (.mpool (slistInit (fun _ => 0) 0) MState.init [], s!"ok {availBoth Pool.init (slistInit (fun _ => 0) 0) 0}")
   | "reset" :: "heap" :: l :: _ =>
     -- an optional 4th word selects the debug / release build of the C code: same model
     match l.toNat? with
-    | some l => (.heap ⟨64, l⟩ Heap.init [], "ok")
+    | some l => (.heap ⟨64, l⟩ Heap.init PHeap.init [], "ok")
     | none => bad
   | ws =>
     match st, ws with
@@ -103,25 +147,88 @@ def stepLine (st : St) (line : String) : St × String :=
       match i.toInt? with
       | some i => (st, if p.cellIsAllocated i then "1" else "0")
       | none => bad
+    | .ipool p, ["sz"] => (st, s!"{p.cells} {p.elemsz}")
     | .ipool p, ["it"] =>
       (st, "it:" ++ String.join (p.iterAll.map fun i => s!" {i}"))
-    | .sop p, ["c"] =>
-      let (r, p') := p.create
-      (.sop p', s!"{optS r} {p'.avail} {p'.objs.length}{if p'.fault then " FAULT" else ""}")
-    | .sop p, ["d", c] =>
-      match c.toNat? with
+    | .sop st p zt, ["c"] =>
+      match sxstep st p .create with
+      | some (p', r) =>
+        let rs := match r with
+          | none => "null"
+          | some a => if a < (match zt with | (_, n, e) :: _ => n * e | [] => 0) then toString a else cellStr zt a
+        (.sop st p' zt, s!"{rs} {p'.sop.avail} {p'.sop.objs.length} {p'.ctor.length} {p'.dtor.length}{if p'.sop.fault then " FAULT" else ""}")
+      | none => (st', "fault")
+    | .sop st p zt, "d" :: cs =>
+      let a? : Option Nat := match cs with
+        | [c] => c.toNat?
+        | [k, off] => match k.toNat?, off.toNat? with
+          | some k, some off => cellAddr? zt k off
+          | _, _ => none
+        | _ => none
+      match a? with
       | some c =>
-        let p' := p.destroy c
-        (.sop p', s!"{p'.avail} {p'.objs.length}{if p'.fault then " FAULT" else ""}")
+        match sxstep st p (.destroy c) with
+        | some (p', _) =>
+          (.sop st p' zt, s!"{p'.sop.avail} {p'.sop.objs.length} {p'.ctor.length} {p'.dtor.length}{if p'.sop.fault then " FAULT" else ""}")
+        | none => (st', "fault")
       | none => bad
-    | .heap cfg h slots, ["m", k, n] =>
+    | .sop st p zt, ["x", n] =>
+      match n.toNat? with
+      | some n =>
+        let b := nextBase zt
+        match sxstep st p (.engage b n) with
+        | some (p', _) => (.sop st p' (zt ++ [(b, n, st)]), s!"{p'.sop.avail}")
+        | none => (st', "fault")
+      | none => bad
+    | .mpool m s zt, ["z", n, e] =>
+      match n.toNat?, e.toNat? with
+      | some n, some e =>
+        let b := nextBase zt
+        match mstep s (.engage b (n * e) e) with
+        | some (s', _) =>
+          let m' := (mstepP m 0 (.engage b (n * e) e)).1
+          (.mpool m' s' (zt ++ [(b, n, e)]), availBoth s'.pool m' 0)
+        | none => (st', "fault")
+      | _, _ => bad
+    | .mpool m s zt, ["a"] =>
+      match mstep s .alloc with
+      | some (s', r) =>
+        let (m', r2) := mstepP m 0 .alloc
+        (.mpool m' s' zt, s!"{optCell zt r}{if r2 != r then " MISMATCH" else ""} {availBoth s'.pool m' 0}")
+      | none => (st', "fault")
+    | .mpool m s zt, ["f", k, off] =>
+      match k.toNat?, off.toNat? with
+      | some k, some off =>
+        match cellAddr? zt k off with
+        | some c =>
+          match mstep s (.free c) with
+          | some (s', _) =>
+            let m' := (mstepP m 0 (.free c)).1
+            (.mpool m' s' zt, availBoth s'.pool m' 0)
+          | none => (st', "fault")
+        | none => (st', "fault")
+      | _, _ => bad
+    | .mpool m s zt, ["in", k, off] =>
+      match k.toNat?, off.toNat? with
+      | some k, some off =>
+        match cellAddr? zt k off with
+        | some c =>
+          let a := s.pool.inFreelist c
+          let b := slistIn m 0 c (s.pool.free.length + 2)
+          (st', (if a then "1" else "0") ++ (if a != b then " MISMATCH" else ""))
+        | none => (st', "fault")
+      | _, _ => bad
+    | .heap cfg h ph slots, ["m", k, n] =>
       match k.toNat?, n.toNat? with
       | some k, some n =>
-        let r := malloc cfg h n
+        let r := malloc64 cfg h n
+        -- a request whose rounding wraps is refused before any pointer is touched
+        let rp := if n % cfg.W ≠ 0 ∧ n > SIZE_MAX - (cfg.W - n % cfg.W) then (⟨ph, none⟩ : PRes)
+          else mallocP cfg ph n (ph.brk + 1)
         let slots' := slotSet slots k r.ret
-        (.heap cfg r.h slots', heapLine (optS r.ret) r.h slots')
+        (.heap cfg r.h rp.h slots', heapLine (optS r.ret) r.h slots' ++ ptrAgree r.h rp.h r.ret rp.ret)
       | _, _ => bad
-    | .heap cfg h slots, ["f", k] =>
+    | .heap cfg h ph slots, ["f", k] =>
       match k.toNat? with
       | some k =>
         match slotGet slots k with
@@ -130,20 +237,23 @@ def stepLine (st : St) (line : String) : St × String :=
           match free h p with
           | none => (st, "fault")
           | some r =>
+            let rp := freeP ph p (ph.brk + 1)
             let slots' := slotSet slots k none
-            (.heap cfg r.h slots', heapLine "-" r.h slots')
+            (.heap cfg r.h rp.h slots', heapLine "-" r.h slots' ++ ptrAgree r.h rp.h none none)
       | none => bad
-    | .heap cfg h slots, ["r", k, n] =>
+    | .heap cfg h ph slots, ["r", k, n] =>
       match k.toNat?, n.toNat? with
       | some k, some n =>
-        match realloc cfg h (slotGet slots k) n with
+        match realloc64 cfg h (slotGet slots k) n with
         | none => (st, "fault")
         | some r =>
+          let rp := if n % cfg.W ≠ 0 ∧ n > SIZE_MAX - (cfg.W - n % cfg.W) then (⟨ph, none⟩ : PRes)
+            else reallocP cfg ph (slotGet slots k) n (ph.brk + 1)
           -- a NULL result leaves the old block alive
           let slots' := match r.ret with
             | none => slots
             | some q => slotSet slots k (some q)
-          (.heap cfg r.h slots', heapLine (optS r.ret) r.h slots')
+          (.heap cfg r.h rp.h slots', heapLine (optS r.ret) r.h slots' ++ ptrAgree r.h rp.h r.ret rp.ret)
       | _, _ => bad
     | _, _ => bad
 
